@@ -130,11 +130,18 @@ def build_match(pktf, bits10, nws, nwd, garbage):
   return m
 
 
-def _prereq_garbage(m):
-  """The match holds a protocol value in a wildcarded dl_type / nw_proto field."""
+def _prereq_garbage(m, field=None):
+  """The match holds a protocol value in a wildcarded dl_type / nw_proto field (on which `field` depends)."""
   w = m["wildcards"]
-  return bool(((w & M.OFPFW_DL_TYPE) and m["dl_type"] in (F.ETH_IP, F.ETH_ARP)) or
-              ((w & M.OFPFW_NW_PROTO) and m["nw_proto"] in (1, 6, 17)))
+  dl = bool((w & M.OFPFW_DL_TYPE) and m["dl_type"] in (F.ETH_IP, F.ETH_ARP))
+  nw = bool((w & M.OFPFW_NW_PROTO) and m["nw_proto"] in (1, 6, 17))
+  if field is None:
+    return dl or nw
+  if field in ("nw_tos", "nw_proto", "nw_src", "nw_dst"):
+    return dl
+  if field in ("tp_src", "tp_dst"):
+    return dl or nw
+  return False
 
 
 # --------------------------------------------------------------------------- POX side
@@ -236,7 +243,7 @@ def _mismatch_key(m, frame, in_port, pktf, ref, clause="match"):
     pl = M.prefix_len(m["wildcards"], M.OFPFW_NW_SRC_SHIFT if blame == "nw_src" else M.OFPFW_NW_DST_SHIFT)
     host_bits = pl > 0 and (m[blame] & ~M._mask(pl) & 0xffffffff) != 0
   return {"clause": clause, "ref": bool(ref), "blame": blame, "zone": _zone(pktf), "host_bits": host_bits,
-          "prereq_garbage": _prereq_garbage(m) and blame in ("nw_tos", "nw_proto", "nw_src", "nw_dst", "tp_src", "tp_dst")}
+          "prereq_garbage": _prereq_garbage(m, blame)}
 
 
 def _differing(m, pktf):
